@@ -8,7 +8,16 @@ props = [json.loads(l)["id"] for l in open(os.path.join(V, "properties.jsonl"))]
 m = json.load(open(os.path.join(V, "MANIFEST.json")))
 checks = {}
 for f in sorted(glob.glob(os.path.join(V, "manifest.d", "C*.json"))):
-    c = json.load(open(f))
+    try:
+        c = json.load(open(f))
+    except ValueError:
+        continue
+    if not all(k in c for k in ("property_id", "quick_cmd", "evidence_file", "level_claimed", "level_note")):
+        print("skipping incomplete fragment", f)
+        continue
+    if not os.path.exists(os.path.join(V, "harness", "props", c["property_id"].lower() + ".py")):
+        print("skipping fragment without a check module", f)
+        continue
     checks[c["property_id"]] = c
 na_reasons = {}
 if os.path.exists(os.path.join(V, "manifest.d", "not_applicable.json")):
